@@ -141,3 +141,15 @@ package p2p
 // message that was never sent, or the same message twice).
 //@ func (*MultiConn).startSendService
 //@   callsite sendPacketWithTiming requires[justdequeued] received(callee.pwt)
+
+// ---- C18: the sender a connection attributes its messages to is the record AddPeer authenticates ---------------------
+// NewConnection is handed the caller's PeerInfo before the identity is known; AddPeer fills in the authenticated key
+// afterwards, in that very object. The connection keeps a reference to it (not a snapshot taken before authentication),
+// so every message it delivers carries the authenticated sender.
+// (Start only spawns the send / receive / heartbeat services of the connection: ASSUMED to leave the connection's
+// wiring alone - what those services do is covered by their own contracts)
+//@ func (*MultiConn).Start
+//@   trusted
+//@   modifies ghost(mutexHeld)
+//@ func (*P2P).NewConnection
+//@   ensures[samepeerinfo] isnil(result1) ==> result0 != nil && result0.peerInfo == info
